@@ -10,7 +10,10 @@ import (
 	"strings"
 	"time"
 
+	"github.com/marekgalovic/anndb/cluster"
 	pb "github.com/marekgalovic/anndb/protobuf"
+	"github.com/marekgalovic/anndb/storage"
+	"github.com/marekgalovic/anndb/storage/raft"
 	"github.com/marekgalovic/anndb/utils"
 
 	uuid "github.com/satori/go.uuid"
@@ -19,11 +22,11 @@ import (
 func init() { runners["C10"] = runC10 }
 
 type routeCase struct {
-	Id   []byte `json:"id"`
-	M    uint64 `json:"m"`
+	Id   []byte  `json:"id"`
+	M    uint64  `json:"m"`
 	Obs  *uint64 `json:"obs"` // nil = panic
-	Kind string `json:"kind"`
-	Path string `json:"path,omitempty"`
+	Kind string  `json:"kind"`
+	Path string  `json:"path,omitempty"`
 }
 
 func bytesList(b []byte) string {
@@ -111,6 +114,48 @@ func runC10(a *args) error {
 			st.count("panic")
 		}
 	}
+	// every node, and every restart, numbers the partitions as the catalogue entry lists them: several Dataset objects
+	// built from one catalogue entry agree on which partition an index denotes and on every id's owner
+	if a.replay == "" {
+		for _, pc := range []int{1, 2, 3, 8, 64, 1024} {
+			rr := r.fork()
+			placement := make([][]uint64, pc)
+			for i := range placement {
+				placement[i] = []uint64{uint64(1 + i%3)}
+			}
+			meta := newDatasetMeta(rr, 2, pb.Space_Euclidean, placement, 1)
+			var objs []*storage.Dataset
+			for k := 0; k < 3; k++ {
+				conn, _ := cluster.NewConn(uint64(1+k), fmt.Sprintf("sim-%d", 1+k), "")
+				d, err := storage.VerifNewDataset(cloneDataset(meta), sharedBadger(), raft.NewTransport(uint64(1+k), fmt.Sprintf("sim-%d", 1+k), conn), conn)
+				if err != nil {
+					return err
+				}
+				objs = append(objs, d)
+			}
+			bad := ""
+			for k, d := range objs {
+				for i := 0; i < pc && bad == ""; i++ {
+					if d.VerifPartitionId(i) != uuid.FromBytesOrNil(meta.Partitions[i].Id) {
+						bad = fmt.Sprintf("object %d holds partition %s at position %d, the catalogue lists %s there", k, d.VerifPartitionId(i), i, uuid.FromBytesOrNil(meta.Partitions[i].Id))
+					}
+				}
+			}
+			for k := 0; k < 200 && bad == ""; k++ {
+				id := uuidFrom(rr)
+				o0 := objs[0].VerifPartitionId(objs[0].VerifOwnerIndex(id))
+				for j, d := range objs[1:] {
+					if o := d.VerifPartitionId(d.VerifOwnerIndex(id)); o != o0 {
+						bad = fmt.Sprintf("id %s is owned by partition %s on object 0 and by %s on object %d", id, o0, o, j+1)
+					}
+				}
+			}
+			st.count(fmt.Sprintf("catalogue-order:%d", pc))
+			if bad != "" {
+				st.ImplFailures = append(st.ImplFailures, implFailure{Case: -1, What: fmt.Sprintf("%d partitions, three Dataset objects built from one catalogue entry (two nodes and a restart): %s", pc, bad), Key: "owner-differs-between-nodes", Input: map[string]interface{}{"partitions": pc}})
+			}
+		}
+	}
 	// holder observations on simulated clusters
 	if a.replay == "" {
 		nclusters := 2
@@ -120,7 +165,10 @@ func runC10(a *args) error {
 		for k := 0; k < nclusters; k++ {
 			hc, err := routeHolderCases(r.fork(), st)
 			if err != nil {
-				return err
+				// the cluster could not be brought up (e.g. its nodes disagree on which partition is which): reported
+				// with whatever the checks above have found
+				st.ImplFailures = append(st.ImplFailures, implFailure{Case: -1, What: "the simulated cluster could not be set up: " + err.Error(), Key: "cluster-setup", Input: map[string]interface{}{"cluster": k}})
+				continue
 			}
 			cases = append(cases, hc...)
 		}
